@@ -314,4 +314,23 @@ def chainUp : List Ty := [⟨false, []⟩, ⟨true, []⟩, ⟨false, [1]⟩, ⟨
 example : markSortable chainDown = some [true, true, true, true, false] := by decide
 example : markSortable chainUp = some [false, true, true, true, true] := by decide
 
+/-- `j` can be reached from `i` through non-deprecated table / union members (what a chain of generated sorters walks) -/
+inductive Path (ts : List Ty) : Nat → Nat → Prop
+  | refl (i : Nat) : Path ts i i
+  | step {i r j : Nat} {t : Ty} : ts[i]? = some t → r ∈ t.refs → Path ts r j → Path ts i j
+
+theorem reach_of_path {ts : List Ty} {i j : Nat} {t : Ty} (hp : Path ts i j) (hj : ts[j]? = some t) (hd : t.direct = true) :
+    Reach ts i := by
+  induction hp with
+  | refl i => exact Reach.direct hj hd
+  | step ht hr _ ih => exact Reach.step ht hr (ih hj)
+
+theorem path_of_reach {ts : List Ty} {i : Nat} (h : Reach ts i) :
+    ∃ j t, Path ts i j ∧ ts[j]? = some t ∧ t.direct = true := by
+  induction h with
+  | @direct i t ht hd => exact ⟨i, t, Path.refl i, ht, hd⟩
+  | step ht hr _ ih =>
+    obtain ⟨j, t', hp, hj, hd⟩ := ih
+    exact ⟨j, t', Path.step ht hr hp, hj, hd⟩
+
 end Flatcc.Sortable
